@@ -52,7 +52,7 @@ CHECKS.update({
  'C15': dict(level='model_checking', technique='exhaustive evaluation of the order and shortening laws over a finite universe of internal keys for five comparers, plus index routing through one-entry-per-block tables',
    text='All 320 internal keys (user keys over {0x00,a,0xff} up to length 3, seq {0,1,2,2^56-1}, both kinds) x 5 comparers: antisymmetry, identity, user-key-major/newest-first, probe placement on all pairs; transitivity on all triples; a<=Separator(a,b)<b and Successor(b)>=b on all ordered pairs for internal and user comparers; every stored key found in every table of <=4 one-entry blocks over a 24-key sub-universe.',
    note='Internal comparer and key constructor reached through an overlay-added export; finite universe.', design='4/C15'),
- 'C16': dict(level='model_checking', technique='exhaustive enumeration: bloom filters for bits 1..64 over all subsets of a key universe, filter blocks over all table subsets x filter bases, and BFS over DB programs under 15 filter settings (bloom and an exact-set policy with its own name, with/without AltFilters) against the sorted-map model',
+ 'C16': dict(level='model_checking', technique='exhaustive enumeration: bloom filters for bits 1..64 over all subsets of a key universe, filter blocks over all table subsets x filter bases, and BFS over DB programs under 18 filter settings (bloom and an exact-set policy with its own name, with/without AltFilters) against the sorted-map model',
    text='No added key is ever reported absent (all 4096 subsets of a 12-key universe x 64 bits-per-key; generated large sets in thorough); tables with many/empty filter partitions find every stored key; every DB operation sequence to the depth returns the model answers with no filter, bloom 1/10/64, an exact-set policy (no false positives, own name), and with tables written under one policy and reopened with no filter / no filter + AltFilters / another policy with and without AltFilters.',
    note='Key sets: all subsets of a finite universe plus a finite generated family.', design='4/C16'),
 
